@@ -160,11 +160,93 @@ def run(chk, ctx):
         if mod.endswith('.constants') or mod.endswith('.exceptions'):
             writers.append('global %s.%s rebound by %s' % (
                 mod, name, ', '.join(f.short for f in fis)))
+    writers.extend(import_time_writers(prog))
     chk.ob('C17.C', 'run-time writers of the constants', not writers,
            'no function stores into pamqp.constants' if not writers else
            '; '.join(writers[:3]))
     chk.floor('C17.C', 12, 'constant facts')
     chk.units['reply_codes'] = len(codes)
+
+
+def import_time_writers(prog):
+    """Statements executed while the package is imported (module and
+    class level, any module) that store into pamqp.constants or
+    pamqp.exceptions from outside their own plain assignments: the values
+    those modules spell out are then not the values the package has."""
+    import ast
+    out = []
+
+    def is_target_module(mi, node):
+        if isinstance(node, ast.Call) and isinstance(node.func, ast.Name) \
+                and node.func.id == 'vars' and node.args:
+            node = node.args[0]
+        if isinstance(node, ast.Attribute) and node.attr == '__dict__':
+            node = node.value
+        if isinstance(node, ast.Call) and isinstance(node.func, ast.Name) \
+                and node.func.id == 'globals':
+            return mi.name.endswith(('.constants', '.exceptions'))
+        try:
+            r = prog.resolve_static(mi, node, mi)
+        except Exception:
+            return False
+        return hasattr(r, 'tree') and r.name.endswith(
+            ('.constants', '.exceptions'))
+
+    def res(mi, node):
+        try:
+            return prog.resolve_static(mi, node, mi)
+        except Exception:
+            return None
+
+    def top_level(body):
+        for st in body:
+            if isinstance(st, (ast.FunctionDef, ast.AsyncFunctionDef)):
+                continue
+            yield st
+            for f_ in ('body', 'orelse', 'finalbody', 'handlers'):
+                for sub in getattr(st, f_, []) or []:
+                    if isinstance(sub, ast.ExceptHandler):
+                        yield from top_level(sub.body)
+                    elif isinstance(sub, ast.stmt):
+                        yield from top_level([sub])
+
+    for mi in prog.modules.values():
+        for st in top_level(mi.tree.body):
+            site = '%s:%d' % (mi.relpath, st.lineno)
+            # only this statement's own expressions (nested statements are
+            # yielded separately)
+            exprs = [n for f_, n in ast.iter_fields(st)
+                     if f_ not in ('body', 'orelse', 'finalbody',
+                                   'handlers')]
+            nodes = []
+            for e in exprs:
+                for x in (e if isinstance(e, list) else [e]):
+                    if isinstance(x, ast.AST):
+                        nodes.extend(ast.walk(x))
+            for n in nodes:
+                if isinstance(n, ast.Call) and isinstance(
+                        n.func, ast.Name) and n.func.id in (
+                            'setattr', 'delattr') and n.args and \
+                        is_target_module(mi, n.args[0]):
+                    out.append('%s(%s, ...) while importing, at %s' % (
+                        n.func.id, ast.unparse(n.args[0]), site))
+                elif isinstance(n, ast.Call) and isinstance(
+                        n.func, ast.Attribute) and n.func.attr in (
+                            'update', 'setdefault', 'pop', 'clear',
+                            '__setitem__', '__setattr__') and \
+                        is_target_module(mi, n.func.value) and not (
+                            hasattr(res(mi, n.func.value), 'tree') and
+                            n.func.attr != '__setattr__'):
+                    out.append('%s while importing, at %s' % (
+                        ast.unparse(n.func), site))
+                elif isinstance(n, (ast.Attribute, ast.Subscript)) and \
+                        isinstance(n.ctx, (ast.Store, ast.Del)) and \
+                        is_target_module(mi, n.value) and (
+                            isinstance(n, ast.Attribute) or not hasattr(
+                                res(mi, n.value), 'tree')):
+                    out.append('store %s while importing, at %s' % (
+                        ast.unparse(n), site))
+    return out
 
 
 def envelope_formats(ctx):
